@@ -78,7 +78,8 @@ func routeAlphabet() []routeSpec {
 func c03requests() []*codec.Req {
 	var rs []*codec.Req
 	rs = append(rs, canonReq("bind"))
-	for _, b := range []string{"dc=a", "DC=A", "dc=b", "dc=c"} {
+	// "" is the base of a root-DSE query: a request value, not an absent criterion
+	for _, b := range []string{"dc=a", "DC=A", "dc=b", "dc=c", ""} {
 		for _, f := range []string{"(cn=x)", "(CN=X)", "(cn=y)"} {
 			for s := int64(0); s < 3; s++ {
 				rs = append(rs, &codec.Req{Op: "search", MsgID: 6, DN: b, Scope: s, Filter: f})
